@@ -87,8 +87,11 @@ func checkC17(w *Worker) {
 		key := fmt.Sprint(ci, ii)
 		base, ok := baseCache[key]
 		if !ok {
+			before := concurrentAppRuns
 			base = runCU(cuCase{Args: args, Files: in})
-			baseCache[key] = base
+			if concurrentAppRuns == before {
+				baseCache[key] = base
+			}
 		}
 		n := len(base.Stdout)
 		offs := offsets(n)
